@@ -2,13 +2,13 @@
 PROPS_VO = "Props/C01.vo"
 PROFILES = ["release"]
 RULE = ("harness c01: GLWE sk / LWE sk / GLWE pk / GLWE compressed encryption followed by decryption through the public API on "
-        "four backends; the harness regenerates what the library drew (raw u64 of the mask source, replay of the library's own "
+        "four backends, rank 0..3, also glwe_encrypt_zero_sk; every scratch arena is pre-filled with garbage (two fills must agree) and "
+        "dirtied by a warm-up encryption; the harness regenerates what the library drew (raw u64 of the mask source, replay of the library's own "
         "Gaussian sampler, replay of the secret / ephemeral samplers) and the model must reproduce every ciphertext word and "
         "every decrypted word; oracle = exact phase, message position and coefficient-wise error bound")
 ASSUMPTIONS = ["release-mode (wrapping) integer semantics",
                "DFT-domain products are exact inside the backend's magnitude domain (C07)"]
 TRUSTED = ["ChaCha8 stream and rand_distr::Normal are inputs of the model (their output is replayed, not modelled)"]
 def classify(record):
-    """no open class: `sk_encrypt.plaintext_radix_ignored` was repaired by b0d4f7c (the sk paths now assert pt.base2k == ct.base2k;
-    the model returns None for such calls and the correspondence check matches the panic)"""
+    """no open class: `sk_encrypt.plaintext_radix_ignored` was repaired by b0d4f7c, `pk_encrypt.zero_dist_uninitialised_u` by fb6b3bd"""
     return None
